@@ -223,3 +223,33 @@ def field_bool_edges(body, field):
 def bodies_of(F, owner):
     """the named function's own body plus its nested closures/coroutines (focus only)"""
     return [b for b in F.bodies.values() if b.focus and F.owner_fn(b.fn) == owner]
+
+
+def path_bool_edges(body, name):
+    """(true, false) edges of branches on a bool read from a place whose last named component (struct field or captured
+    path such as `*self.complete`) is `name`"""
+    def hit(pl):
+        comps = [x for x in pl[1:] if isinstance(x, str) and x.startswith('.')]
+        if not comps:
+            return False
+        last = comps[-1][1:]
+        last = last[:-2] if last.endswith(':^') else last.split(':')[0]
+        return last == name or last.endswith('.' + name)
+    te, fe = set(), set()
+    for i, j, s in body.stmts():
+        pl, rv = s[0], s[1]
+        if rv.get('op') == 'use' and len(pl) == 1:
+            src = op_place(rv['a'][0])
+            if src and hit(src):
+                t, f = prims.bool_local_edges(body, pl[0])
+                te |= t
+                fe |= f
+    for i, blk in enumerate(body.bbs):
+        t = blk['t']
+        if t['t'] == 'switch' and not blk.get('c'):
+            p = op_place(t['on'])
+            if p and hit(p):
+                for v, b in t['tg']:
+                    (fe if v == 0 else te).add((i, b))
+                te.add((i, t['else']))
+    return te, fe
